@@ -252,4 +252,22 @@ def observe : List Op → List Res → List (Ev × Bool)
   | .expire _ :: ops, _ :: rs => observe ops rs
   | _, _ => []
 
+/-- hypotheses shared by the property theorems: static configuration, clock, expiry -/
+structure Hyp (cfg : Cfg) (ops : List Op) : Prop where
+  hcfg : cfgOK cfg = true
+  hnow : nowOK cfg ((cfg.count : Int) * cfg.interval) (evs ops) = true
+  hsafe : SafeExpiry cfg [] [] ops
+
+/-- what the repaired configuration guarantees (limiter_expiration ≥ bucket_interval ×
+    buckets_count, clock = wall clock): a key that lost its limiter comes back only when the
+    clock's bucket is at least `buckets_count` buckets after the clock's bucket of every earlier
+    event of that key -/
+def SilentExpiry (cfg : Cfg) : List Bytes → List Ev → List Op → Prop
+  | _, _, [] => True
+  | live, hist, .expire k :: ops => SilentExpiry cfg (live.filter (fun k' => k' != k)) hist ops
+  | live, hist, .ev e :: ops =>
+    (∀ k, limKeyOf cfg e = some k → k ∈ live ∨
+        ∀ e' ∈ hist, limKeyOf cfg e' = some k → bucketOf cfg e'.now + cfg.count ≤ bucketOf cfg e.now) ∧
+    SilentExpiry cfg (match limKeyOf cfg e with | some k => k :: live | none => live) (e :: hist) ops
+
 end FileD.SpecC16
